@@ -24,7 +24,7 @@ BOUNDS = {
     'thorough': 'as quick with <= 5 binary operators (unary minus on <= 2 nodes up to 4 operators, <= 1 node for 5), '
                 'zero-divisor placements for <= 3 operators, & chains of 2..5 operands',
 }
-ASSUMPTIONS = ['relative precedence of & and arithmetic is not demanded (operands of & are atoms or parenthesised)',
+ASSUMPTIONS = ['& ranks between + - and the comparisons (the statement lists unary minus, * /, + -, comparisons from the tightest down and puts & above the comparisons)',
                'chained comparisons without parentheses and ^ are outside the statement',
                'comparisons whose outcome depends on float rounding of a non-dyadic quotient are skipped',
                'float results compared with the exact rational value, rel 1e-9']
@@ -369,6 +369,70 @@ class Amp(Sub):
         return out
 
 
+MIX_LEAVES = (['n', '1', [1, 1]], ['n', '2', [2, 1]], ['n', '3', [3, 1]], ['v', 'va', 4], ['c', 'A1', 6], ['f', 'SUM(2,3)', 5])
+MIX_OPS = ('+', '-', '*')
+
+
+def _arith_trees(nops):
+    """all trees with exactly nops operators of + - * over the leaf pool (leaf choice rotates with the position)"""
+    if nops == 0:
+        for leaf in MIX_LEAVES[:4]:
+            yield leaf
+        return
+    for k in range(nops):
+        for l in _arith_trees(k):
+            for r in _arith_trees(nops - 1 - k):
+                for op in MIX_OPS:
+                    yield ['b', op, l, r]
+
+
+class AmpArith(Sub):
+    name = 'c04.amp_arith'
+    rule = ('& against the arithmetic operators: Concat(x, y) and Concat(Concat(x, y), z) for all arithmetic trees x, y (z) with '
+            '<= 2 (1) operators (quick: every sixth of the two-operator trees) of + - * over integer leaves (literals, a variable, a cell, a call), also with a unary minus on '
+            'the first operand, alone and under one comparison with the expected text; and arithmetic over a & of digits '
+            '((1&2)*3 = 36): in the minimal rendering arithmetic operands of & are bare (1+2&3 is "33"), a & operand of an '
+            'arithmetic operator is parenthesised; non-trivial = every tree')
+    min_cases = 20
+    min_nontrivial = 1000
+
+    def cases(self, tier, unit):
+        n = 2
+        xs = [t for k in range(n + 1) for t in _arith_trees(k)]
+        for i in range(len(xs)):
+            if tier != 'quick' or i < 60 or i % 6 == 0:       # quick: all trees of <= 1 operator, every sixth of the rest
+                yield ['x', n, i]
+
+    def check(self, env, case):
+        if case[0] == 'tree':
+            return check_tree(env, case[1])
+        n, i = case[1], case[2]
+        xs = [t for k in range(n + 1) for t in _arith_trees(k)]
+        x = xs[i]
+        ys = [t for k in range(2) for t in _arith_trees(k)]
+        out = []
+        for j, y in enumerate(ys):
+            trees = [['b', '&', x, y]]
+            if j % 4 == i % 4:
+                trees.append(['b', '&', ['u', x], y])
+                trees.append(['b', '&', ['b', '&', x, y], MIX_LEAVES[(i + j) % 6]])
+                trees.append(['b', '&', x, ['b', '&', y, MIX_LEAVES[(i + j) % 6]]])
+            for t in list(trees):
+                exp = expect(t)
+                if exp[0] == 'text' and '"' not in exp[1]:
+                    trees.append(['b', '=', t, ['s', exp[1]]])
+                    if exp[1].isdigit() and len(exp[1]) < 12:
+                        trees.append(['b', '*', t, ['n', '3', [3, 1]]])
+                        trees.append(['b', '-', ['n', '100', [100, 1]], t])
+            for t in trees:
+                f = check_tree(env, t, extras=(j % 7 == 0))
+                if f:
+                    out.append(f)
+                    if len(out) > 3:
+                        return out
+        return out
+
+
 class Deep(Sub):
     name = 'c04.deep'
     rule = ('deterministic left-nested, right-nested and alternating chains of depth 1..30 for each operator pattern, '
@@ -450,4 +514,4 @@ class ChainScale(Sub):
         return out
 
 
-SUBS = [Arith(), FloatGrouping(), Zero(), Compare(), Amp(), Deep(), ChainScale()]
+SUBS = [Arith(), FloatGrouping(), Zero(), Compare(), Amp(), AmpArith(), Deep(), ChainScale()]
